@@ -37,8 +37,15 @@ func (h *H) connPhases() (phases []connPhase, established map[int]int) {
 	for _, c := range h.AllConns() {
 		h.WithLock(func() { accepted[c.N] = c.State.Accepted })
 	}
+	ops := h.Store.OpsCopy()
 	for _, e := range h.Events() {
 		switch e.Kind {
+		case sim.EvStore:
+			// an attempt which ends before the dial: the Persistence does
+			// not produce the client identifier
+			if e.Str == "L" && e.Err != nil && e.N < len(ops) && ops[e.N].Key == 0 && state != "online" {
+				attempt, attemptConn = true, 0
+			}
 		case sim.EvDial:
 			attempt, attemptConn = true, 0
 		case sim.EvDialRet:
@@ -267,7 +274,7 @@ func TestC18ConnectSetup(t *testing.T) {
 			if c := h.Current(); c != nil && c.Accepted() {
 				rt.Skip("online")
 			}
-			kind := rapid.SampledFrom([]string{"ok", "ok", "ok", "dial-error", "refuse", "raw", "eof", "write-fault", "read-fault", "hold", "resend-fault", "resend-fault"}).Draw(rt, "outcome")
+			kind := rapid.SampledFrom([]string{"ok", "ok", "ok", "dial-error", "refuse", "raw", "eof", "write-fault", "read-fault", "hold", "resend-fault", "resend-fault", "identifier-load-fails"}).Draw(rt, "outcome")
 			if kind == "resend-fault" && lenConnect < 0 {
 				kind = "ok"
 			}
@@ -281,6 +288,11 @@ func TestC18ConnectSetup(t *testing.T) {
 				wantFail = false
 			case "dial-error":
 				o.Kind = sim.DialErr
+			case "identifier-load-fails":
+				// the Persistence cannot produce the client identifier right
+				// now (no data, an error): the attempt fails; no CONNECT with
+				// another identifier may go out
+				h.Store.FailNext('L')
 			case "refuse":
 				code := byte(rapid.IntRange(1, 255).Draw(rt, "code"))
 				flags := byte(rapid.SampledFrom([]int{0, 0, 1, 2, 0x80, 0xff}).Draw(rt, "flags"))
@@ -348,7 +360,9 @@ func TestC18ConnectSetup(t *testing.T) {
 			// (nothing armed by another action which could hold the attempt up)
 			undisturbed := !h.WritersParkedAny() && len(h.ParkedGates()) == 0 && h.Store.Parked() == 0
 			h.WithLock(func() { undisturbed = undisturbed && (h.NextConnOpts == nil || kind == "write-fault") })
-			h.ScriptDial(o)
+			if kind != "identifier-load-fails" {
+				h.ScriptDial(o) // (no dial without identifier)
+			}
 			h.Act("attempt %s", desc)
 			before := h.App.NResults()
 			nconns := len(h.AllConns())
